@@ -1,25 +1,30 @@
 #!/bin/sh
 # usage: tools/verify_seed.sh <ID> [seeddir]   — confirms a seeded change in a fresh scratch worktree:
 #  demo fails with the patch, passes without it, repo suite passes with the patch.
+# Uses patch.rebased.diff when present (the original patch.diff was written against an older HEAD).
 # Leaves the worktree /tmp/v/<ID> with the patch applied (for VERIF_REPO=/tmp/v/<ID> ./check ...).
 ID=$1; SD=${2:-/tmp/seed/$ID/out}
+[ -d "$SD" ] || SD=/verif/seeded/$ID
 W=/tmp/v/$ID
 unset GOFLAGS GOTOOLCHAIN; export GOPROXY=off
+P=$SD/patch.diff; [ -f $SD/patch.rebased.diff ] && P=$SD/patch.rebased.diff
 git -C /repo worktree remove --force $W 2>/dev/null; rm -rf $W
 git -C /repo worktree add -q --detach $W HEAD || exit 2
 cd $W || exit 2
 DEMO=$(python3 -c "import json;print(json.load(open('$SD/meta.json')).get('demo_path','leader/seeded_demo_test.go'))")
-git apply $SD/patch.diff || { echo "PATCH DOES NOT APPLY"; exit 2; }
+git apply $P || { echo "PATCH DOES NOT APPLY"; exit 2; }
 go build ./... || { echo "DOES NOT COMPILE"; exit 2; }
 echo "== suite with patch (demo absent)"
 go test -vet=off -count=1 ./... 2>&1 | tail -3
 cp $SD/demo_test.go $DEMO
 PKG=./$(dirname $DEMO)
+RACE=""; [ "$ID" = "C20" ] && RACE="-race"
+TAGS=""; grep -q "VerifNewKeyValue" $DEMO && TAGS="-tags verif"
 echo "== demo with patch (expect FAIL)"
-go test -vet=off -count=1 -run 'Seeded|Demo|SEED' $PKG 2>&1 | tail -4
-git apply -R $SD/patch.diff
+go test $RACE $TAGS -vet=off -count=1 -run 'Seeded|Demo|SEED' $PKG 2>&1 | tail -4
+git apply -R $P
 echo "== demo without patch (expect ok)"
-go test -vet=off -count=1 -run 'Seeded|Demo|SEED' $PKG 2>&1 | tail -3
-git apply $SD/patch.diff
+go test $RACE $TAGS -vet=off -count=1 -run 'Seeded|Demo|SEED' $PKG 2>&1 | tail -3
+git apply $P
 rm -f $DEMO
 echo "== worktree $W has the patch applied"
